@@ -131,11 +131,23 @@ type vfxCfg struct {
 	ByHostName     bool
 	KeepHost       bool
 	PoolTimeout    string // "" or a duration (outside the stated quantifier; thorough-only dimension)
+
+	CacheSize uint32       // route cache of the HTTPServer (0 = off)
+	MemCache  *vfxMemCache // memoryCache of every pool (nil = none)
+}
+
+// vfxMemCache is the memoryCache section of a pool.
+type vfxMemCache struct {
+	Expiration    string
+	MaxEntryBytes int
+	Codes         []int
+	Methods       []string
 }
 
 func (c *vfxCfg) serverYAML() string {
 	var b strings.Builder
-	b.WriteString("kind: HTTPServer\nname: vfx-server\nport: 10080\nkeepAlive: true\nhttps: false\ncacheSize: 0\n")
+	b.WriteString("kind: HTTPServer\nname: vfx-server\nport: 10080\nkeepAlive: true\nhttps: false\n")
+	fmt.Fprintf(&b, "cacheSize: %d\n", c.CacheSize)
 	if c.ServerClientMax != 0 {
 		fmt.Fprintf(&b, "clientMaxBodySize: %d\n", c.ServerClientMax)
 	}
@@ -182,6 +194,10 @@ func (c *vfxCfg) pipelineYAML(backendHostPort string) string {
 		}
 		if c.PoolTimeout != "" {
 			fmt.Fprintf(&b, "    timeout: %s\n", c.PoolTimeout)
+		}
+		if m := c.MemCache; m != nil {
+			fmt.Fprintf(&b, "    memoryCache:\n      expiration: %s\n      maxEntryBytes: %d\n      codes: %s\n      methods: [%s]\n",
+				m.Expiration, m.MaxEntryBytes, strings.ReplaceAll(fmt.Sprint(m.Codes), " ", ", "), strings.Join(m.Methods, ", "))
 		}
 		if p.FilterValue != "" {
 			fmt.Fprintf(&b, "    filter:\n      headers:\n        X-Vf-Pool:\n          exact: %s\n", strconv.Quote(p.FilterValue))
